@@ -19,7 +19,14 @@ import (
 	"time"
 )
 
-const VerifDir = "/verif"
+// VerifDir is /verif; VERIF_DIR overrides it so that a snapshot of the machinery (a background run started
+// from a committed copy) works on its own files. The registered commands never set it.
+var VerifDir = func() string {
+	if d := os.Getenv("VERIF_DIR"); d != "" {
+		return d
+	}
+	return "/verif"
+}()
 
 // Ctx carries one check run.
 type Ctx struct {
